@@ -364,6 +364,10 @@ func runC04rest(c *Ctx, f *ssa.Function, keyRet *ssa.Return) {
 		}
 	}
 
+	// ---------------------------------------------------------------- R4
+	c.rule("R4", "the refresh that is stored under a key resolves that key's question: it runs on a context copy taken before the live context moves on", 1)
+	checkRefreshOnEarlyCopy(c)
+
 	// ---------------------------------------------------------------- R3
 	c.rule("R3", "lookup and every store of one Exec use the same key value; backend maps are keyed by the key itself", 3)
 	get := c.fn(relCachePlugin, "", "getRespFromCache")
